@@ -157,6 +157,14 @@ def h_algebra(ctx, cfg):
   elif op == "self2":         # the same time-varying filter used twice through a copy
     r = f + f.copy() * c
     if not tvden: ctx.assume(c != -1)
+  elif op == "samedenom":
+    # H + H*c: both operands share H's denominator *object*, so the sum keeps it once and its Streams are
+    # used once (legitimate without a copy only when the numerator holds no Stream)
+    ctx.assume(c != -1)
+    r = f + f * c
+  elif op == "samedenom_sub":
+    ctx.assume(c != 1)
+    r = f - f * c
   else: raise ValueError(op)
   def numn(n):
     fn, fd, gn, gd = _at(fna, n), _at(fda, n), _at(gna, n), _at(gda, n)
@@ -165,12 +173,14 @@ def h_algebra(ctx, cfg):
             "mul": lambda: _rmul(fn, gn), "cmul": lambda: _rscale(fn, c), "mulc": lambda: _rscale(fn, c),
             "addc": lambda: _radd(fn, _rscale(fd, c)), "delay": lambda: {k + 1: v for k, v in fn.items()},
             "div": lambda: _rmul(fn, gd),
+            "samedenom": lambda: _rscale(fn, 1 + c), "samedenom_sub": lambda: _rscale(fn, 1 - c),
             "self2": lambda: (_radd(_rmul(fn, fd), _rscale(_rmul(fn, fd), c)) if tvden else _rscale(fn, 1 + c))}[op]()
   def denn(n):
     fn, fd, gn, gd = _at(fna, n), _at(fda, n), _at(gna, n), _at(gda, n)
     return {"add": lambda: _rmul(fd, gd), "sub": lambda: _rmul(fd, gd), "mul": lambda: _rmul(fd, gd),
             "cmul": lambda: fd, "mulc": lambda: fd, "addc": lambda: fd, "delay": lambda: fd,
-            "div": lambda: _rmul(fd, gn), "self2": lambda: (_rmul(fd, fd) if tvden else fd)}[op]()
+            "div": lambda: _rmul(fd, gn), "self2": lambda: (_rmul(fd, fd) if tvden else fd),
+            "samedenom": lambda: fd, "samedenom_sub": lambda: fd}[op]()
   srcs = fsrc + (gsrc if op in ("add", "sub", "mul", "div") else [])
   nout = min(fl, gl) if op in ("add", "sub", "mul", "div") else fl
   for n in range(nout):
@@ -223,6 +233,9 @@ def tasks(tier, seed):
     {"num": [(0, P)], "den": [(0, "c"), (1, Sh)]},
     {"num": [(1, S)], "den": [(0, "c"), (2, S)]},
     {"num": [(0, "c")], "den": [(0, S), (1, S)]},
+    {"num": [(0, "c")], "den": [(0, S), (1, "c"), (2, "c")]},
+    {"num": [(0, "c"), (1, S)], "den": [(0, S), (1, S), (2, "c")]},
+    {"num": [(0, "c")], "den": [(0, P), (1, S), (3, Lg)]},
   ]
   if big:
     specs += [{"num": [(0, S), (1, S), (2, S)], "den": [(0, "c")]},
@@ -246,6 +259,10 @@ def tasks(tier, seed):
       T.append(("h_algebra", {"op": op, "f": f, "g": {"num": [(0, "c"), (1, "c")], "den": [(0, "c")]}, "N": N}))
       T.append(("h_algebra", {"op": op, "f": f, "g": {"num": [(0, "c"), (1, "c")], "den": [(0, "c")]}, "N": N, "nzc": False}))
       T.append(("h_algebra", {"op": op, "f": {"num": [(0, "c")], "den": [(0, "c"), (1, "c")]}, "g": f, "N": N}))
+  for f in (TV[2], TV[3], {"num": [(0, "c"), (1, "c")], "den": [(0, S), (1, S)]},
+            {"num": [(0, "c")], "den": [(0, "c"), (1, S), (2, P)]}):
+    for op in ("samedenom", "samedenom_sub"):
+      T.append(("h_algebra", {"op": op, "f": f, "g": C0, "N": N}))
   if big:
     for f in TV[:3]:
       for g in TV[:3]:
